@@ -15,6 +15,12 @@ def run(ck):
         n = ck.tlc("wire", "WriteLock", cfg, workers=1, must_pass=False, label="negative control: " + what)
         if "WireOK" not in n.violated:
             raise Infra("negative control failed (%s): WireOK not violated" % what)
+    ck.model(ck.tlc("wire", "MCPooledWrite", "Pooled.cfg", label="pooled message buffers: response writer, media writer, another connection's writer (whose first write fails), 2 messages each, 3 buffers"))
+    for cfg, what in (("PooledNegBefore.cfg", "buffer returned to the pool before the write (seeded changes C12-5, C13-5)"),
+                      ("PooledNegDouble.cfg", "buffer returned twice after a failed write (seeded change C01-6)")):
+        n = ck.tlc("wire", "MCPooledWrite", cfg, must_pass=False, label="negative control: " + what)
+        if "WireFaithful" not in n.violated:
+            raise Infra("negative control failed (%s): WireFaithful not violated" % what)
     ck.cov["interleavings_of_the_model"] = len(r.printed("@S"))
     tr = os.path.join(ck.tmp, "c13.ndjson")
     out2 = os.path.join(ck.tmp, "c13_out.json")
@@ -22,6 +28,11 @@ def run(ck):
     res = ck.read_result(out2)
     if res["gated_overlaps"] < 10:
         raise Infra("dead driver: only %d overlaps were gated at frame.prefix (hook not firing?)" % res["gated_overlaps"])
+    if res["parked_at_ws_write"] < 5:
+        raise Infra("dead driver: only %d responses were parked at ws.write (hook not firing?)" % res["parked_at_ws_write"])
+    ck.cov["responses_parked_at_ws_write"] = res["parked_at_ws_write"]
+    if res["changed_while_parked"]:
+        ck.notes.append("%d responses changed in their buffer while parked before the WebSocket write (two writers share a pooled buffer)" % res["changed_while_parked"])
     lines = open(tr).read().splitlines()
     rt = ck.tlc("wire", "WireTrace", "WireTrace.cfg", workers=1, env={"VERIF_TRACE": tr}, label="validation of %d wire items" % len(lines), timeout=1800)
     if rt.distinct != len(lines) + 1:
@@ -47,11 +58,12 @@ def run(ck):
         raise Infra("vacuous: executions %s received no media frame" % vacuous)
     ck.sample({"execution": begins.get(1), "first_items": [json.loads(l) for l in lines[1:12]]})
     ck.assumptions += ["the media writer is parked by the verif hook frame.prefix between prefix and payload; the request is sent in that window; the gate opens when the request handler is seen parked on the write lock (goroutine dump) or after 40 ms",
+                       "on WebSocket a response is also parked at the entry of the WebSocket write (hook ws.write) for 4 ms while three players' media writers use the shared buffer pool (GOMAXPROCS 4 in that window)",
                        "WSP data channel uses the same tcpConsumer code path as ws-rtsp (wsconn != nil); it is exercised by the C11/C01 server drivers"]
 
 
 META = {
-    "text": "BufferedWrite.tla models the shared bufio.Writer at the grain of its copy / advance and emit / reset steps (the flush of a response must happen under the lock: negative control). WriteLock.tla models the two writers of a playing connection step by step (lock, prefix, payload, unlock / lock, response, unlock); TLC shows every interleaving keeps the wire well formed with the lock and finds a torn wire without it (negative controls). On the real server the media writer is parked by the hook frame.prefix exactly between the interleaved prefix and the payload while OPTIONS / repeated PLAY requests are sent (TCP and RTSP-over-WebSocket); a strict independent parser turns everything the client reads into a trace that TLC validates (every item a complete response or frame, every request answered once).",
+    "text": "PooledWrite.tla models the pooled message buffers of the WebSocket writers (get / reset / encode in two pieces / lock / write / put for a lock-first response writer, an encode-first media writer and another connection's writer whose write fails): TLC shows Exclusive and WireFaithful when the buffer goes back once, after the write, and a wrong wire when it goes back before the write or twice (negative controls = seeded changes C12-5, C13-5, C01-6). BufferedWrite.tla models the shared bufio.Writer at the grain of its copy / advance and emit / reset steps (the flush of a response must happen under the lock: negative control). WriteLock.tla models the two writers of a playing connection step by step (lock, prefix, payload, unlock / lock, response, unlock); TLC shows every interleaving keeps the wire well formed with the lock and finds a torn wire without it (negative controls). On the real server the media writer is parked by the hook frame.prefix exactly between the interleaved prefix and the payload while OPTIONS / repeated PLAY requests are sent (TCP and RTSP-over-WebSocket); a strict independent parser turns everything the client reads into a trace that TLC validates (every item a complete response or frame, every request answered once).",
     "note": "Trusted: TLC, WriteLock.tla / WireTrace.tla, the strict parser in harness/vclient (media payloads deliberately contain 'RTSP/1.0 200 OK' and '$' bytes), the hook frame.prefix.",
     "technique": "TLA+ model of the lock discipline checked by TLC (with negative controls); hook-gated overlap of the two writers on the real server; TLC trace validation of the wire",
     "specs": ["wire"],
